@@ -93,6 +93,11 @@ DecodeFormula(c, m) ==
 XfIndex(c) == IF c.s < 0 THEN 0 ELSE c.s                    \* s defaults to 0 (18.3.1.4)
 ValidStyle(c, xfs) == XfIndex(c) < Len(xfs)
 DecodeFmt(c, xfs) == xfs[XfIndex(c) + 1]
+(* the format code of xf = [id, custom, code] (18.8.30): a <numFmt> of the file that declares the id wins, whatever the id
+   (localised producers declare ids below 164, e.g. 42 / 44 with their own currency); an undeclared id that ECMA-376 lists
+   for all languages means that built-in format (compared by id: the wording of a built-in code is the reader's business);
+   for an undeclared id outside that list (5-8, 23-36, 41-44, 50..) the standard fixes no code: nothing is demanded *)
+FmtDemand(xf) == IF xf.custom THEN "code" ELSE IF xf.id \in EcmaFmtIds THEN "id" ELSE "none"
 
 (* ---- positions (18.3.1.73 row: r optional; 18.3.1.4 c: r optional) ------------------- *)
 (* A <row> without r= is the row after the previous <row> element (row 1 if it is the first), whether or not that one
